@@ -192,6 +192,25 @@ def run_case(out, n, plabel, variant, A0, Ad, stored, sub, given, seed):
     else:
         Iset, Dset = np.array(sub), comp
     if len(Dset) == 0:
+        # nothing constrained: the kept set is every index, possibly in another order; solving the condensed system and
+        # expanding must still return the solution of A y = b in the ORIGINAL numbering
+        if given == 'I' and abs(np.linalg.det(Ad.astype(float))) > 0.5:
+            b0_ = np.array([3 + 2 * i + (i * i) % 5 for i in range(n)], dtype=np.float64)
+            x0_ = np.array([5. - 3 * i for i in range(n)])
+            try:
+                out.ev()
+                y = np.asarray(solve(*condense(A0.copy(), b0_.copy(), x=x0_.copy(), I=np.array(sub, dtype=np.int64))))
+                r = Ad.astype(float) @ y - b0_
+                if y.shape != (n,) or np.abs(r).max() > 1e-8 * (1 + np.abs(y).max()) * (1 + np.abs(Ad).max()):
+                    out.violation(f"C05|condense+solve|all-kept-permuted|n={n}", f"I = {list(sub)} (every index, nothing constrained): the "
+                                  f"expanded solution {y.tolist()} does not solve A y = b in the original numbering (residual "
+                                  f"{r.tolist()}) (n={n} pattern={plabel})",
+                                  case={'n': n, 'pattern': plabel, 'variant': variant, 'A': Ad.tolist(), 'I': list(sub)})
+                elif tuple(sorted(sub)) != tuple(sub):
+                    out.nt((n, plabel, variant, sub, 'all-kept'))
+            except Exception as e:
+                out.violation(f"C05|condense+solve|all-kept-exception|n={n}", f"{e!r} for I = {list(sub)}",
+                              case={'n': n, 'pattern': plabel, 'variant': variant, 'A': Ad.tolist(), 'I': list(sub)})
         return
     b0 = np.array([3 + 2 * i + (i * i) % 5 for i in range(n)], dtype=np.float64) * (-1) ** np.arange(n)
     x0 = np.array([5 - 3 * i + (seed % 3) for i in range(n)], dtype=np.float64)
@@ -307,6 +326,20 @@ def run_case(out, n, plabel, variant, A0, Ad, stored, sub, given, seed):
                     r_ = (Ad.astype(float) @ yc - b0)[Ir_]
                     if np.abs(r_).max(initial=0) > 1e-8 * (1 + np.abs(yc).max()) * (1 + np.abs(Ad).max()):
                         bad('condense+solve', 'complex-kept-equations', "complex prescribed values: kept equations violated", fname)
+                # right-hand side omitted (zero load): the helpers build it themselves, in a dtype that can hold x
+                be_ = np.asarray(enforce(A, x=xc, **kw)[1])
+                we_ = np.zeros(n, dtype=complex)
+                we_[Dset] = xc[Dset]
+                if be_.shape != we_.shape or np.abs(be_ - we_).max() > 0:
+                    bad('enforce', 'rhs-omitted-b', f"enforce(A, x=x, D) without b and complex x: rhs {be_.tolist()} expected {we_.tolist()}", fname)
+                bp_ = np.asarray(penalize(A, x=xc, epsilon=2.0 ** -20, **kw)[1])
+                if bp_.shape != we_.shape or np.abs(bp_ - we_ * 2.0 ** 20).max() > 1e-9 * (1 + np.abs(we_).max() * 2.0 ** 20):
+                    bad('penalize', 'rhs-omitted-b', "penalize(A, x=x, D) without b and complex x: rhs is not x/eps on the constrained entries", fname)
+                rz = condense(A, x=xc, **kw)
+                bcz, Iz = np.asarray(rz[1]), np.asarray(rz[3])
+                wz = -Ad[np.ix_(Iz, Dset)].astype(float) @ xc[Dset]
+                if bcz.shape != wz.shape or np.abs(bcz - wz).max(initial=0) > 1e-13 * (1 + np.abs(wz).max(initial=0)):
+                    bad('condense', 'rhs-omitted-b', "condense(A, x=x, D) without b and complex x: rhs is not -A[I,D]x[D]", fname)
             except Exception as e:
                 bad('condense', 'dtype-exception', repr(e), fname)
         # matrix rhs (generalised eigenproblem) + expansion with a stub solver
